@@ -674,7 +674,7 @@ def run(pid, tier, replay=None):
 
 SKEL_FEATURES = ["pkg", "import", "public", "nested", "enum", "map", "group", "oneof", "p3opt", "extrange", "extend", "service",
                  "customopt", "msglit", "srcret", "stdopt", "default", "reserved", "jsonname", "required", "features",
-                 "jsoncollide", "mapfeatures"]
+                 "jsoncollide", "mapfeatures", "extgroup"]
 SKEL_HEADER = '''------------------------------ MODULE LayoutSkel ------------------------------
 (* Token skeletons of valid files for Layout.tla.  GENERATED at development time by
    `srcinfo skeleton` (harness/srcinfo/layout.go) with an independent scanner, then kept as a
@@ -702,7 +702,7 @@ def regen_skeletons():
     def ok(s, f):
         return {"p3opt": s == "proto3", "group": s != "proto3", "extrange": s != "proto3", "extend": s != "proto3",
                 "required": s != "proto3", "default": s != "proto3", "features": s == "editions",
-                "jsoncollide": s == "proto2", "mapfeatures": s == "editions"}.get(f, True)
+                "jsoncollide": s == "proto2", "mapfeatures": s == "editions", "extgroup": s == "proto2"}.get(f, True)
     reqs = [{"id": "x"}, {"id": "e24"}]
     for sid, syn in (("p2", "proto2"), ("p3", "proto3"), ("ed", "editions")):
         reqs.append({"id": sid, "syntax": syn, "features": [f for f in SKEL_FEATURES if ok(syn, f)]})
